@@ -155,7 +155,7 @@ func c10CapSeq(items []c09In, seq []int, maxLen int) []int {
 }
 
 func c10OrderCases(c *Ctx, add func(kind string, tree []*fnode, argv ...string) *wcase) {
-	fams := []c09Fam{c09BudgetDER(c), c09SSHFamily(c), c09CertFamily(c), c09B64Family(c), c09BudgetOther(c), c09BudgetPGP(c), c09PGPFamily(c, c.R.Intn(3), 1)}
+	fams := []c09Fam{c09BudgetDER(c), c09SSHFamily(c), c09CertFamily(c), c09JWTFamily(c), c09B64Family(c), c09BudgetOther(c), c09BudgetPGP(c), c09PGPFamily(c, c.R.Intn(3), 1)}
 	fams = append(fams, c10OwnFamilies(c)...)
 	maxLen := 14
 	if c.Thorough() {
